@@ -200,6 +200,12 @@ impl<R: Read> Read for Chunked<R> {
     fn read(&mut self, buf: &mut [u8]) -> io::Result<usize> { let n = buf.len().min(self.chunk); self.inner.read(&mut buf[..n]) }
 }
 
+/// A reader whose every third call is interrupted by a signal (`ErrorKind::Interrupted`: a legal `Read`; callers must retry).
+pub struct Interrupting<R: Read> { pub inner: R, pub calls: usize }
+impl<R: Read> Read for Interrupting<R> {
+    fn read(&mut self, buf: &mut [u8]) -> io::Result<usize> { self.calls += 1; if self.calls % 3 == 0 { Err(io::Error::new(io::ErrorKind::Interrupted, "interrupted")) } else { self.inner.read(buf) } }
+}
+
 /// A writer that accepts at most `chunk` bytes per call (a legal `Write`).
 pub struct ChunkedSink { pub data: Vec<u8>, pub chunk: usize }
 impl Write for ChunkedSink {
